@@ -546,6 +546,10 @@ struct StreamWorld {
   struct Peer { int fd; std::vector<uint8_t> rx; };
   std::vector<Peer> peers;  // the last one is the current target
   bool closed = false, discard_round = false;
+  bool dispatch_pending = false;
+  bool local_open = false;                       // the local side has pushed part of an outgoing message
+  std::string local_text;                        // its text so far
+  std::vector<std::pair<size_t, std::string>> local_sent;  // (peer, text) of finished outgoing messages still to arrive
   size_t idlen = 1;
   ref::Dialect dialect = ref::Cobs;
   std::vector<SMsg> msgs;
@@ -634,6 +638,39 @@ struct StreamWorld {
     c.logf("connection over a stream (COBS), id length %zu", idlen);
     connect_peer();
   }
+  // the local side starts an outgoing message and leaves it unfinished: mpt_connection_dispatch must answer Retry until it is
+  // finished (connection_dispatch.c "message transfer in progress"), the requests that arrive meanwhile are answered afterwards
+  void local_start() {
+    if (local_open) return;
+    char text[16];
+    snprintf(text, sizeof text, "L%03zu;hello", local_sent.size());
+    ssize_t r = mpt_connection_push(con, strlen(text), text);
+    c.logf("mpt_connection_push(con, \"%s\") without end of message -> %zd", text, r);
+    if (r < 0) { c.label("conn:local-push-refused"); return; }
+    local_open = true;
+    local_text = text;
+    c.label("conn:outgoing-message-open");
+  }
+  void local_finish() {
+    if (!local_open) return;
+    ssize_t r = mpt_connection_push(con, 0, 0);
+    c.logf("mpt_connection_push(con, end of message) -> %zd", r);
+    VP_CHECK(c, r >= 0, "harness-write", "finishing the outgoing message failed with %zd", r);
+    local_open = false;
+    local_sent.push_back({peers.size() - 1, local_text});
+  }
+  // the id width of the connection changes while answers may be parked: they cannot be sent under another width any more
+  void change_idlen() {
+    // only narrower: the connection keeps its reply context, which was created for the width of the first request; a wider
+    // id does not fit it any more ("context not ready", request dropped) — observation in the report, not generated
+    if (idlen < 2) { c.label("conn:id-width-kept"); return; }
+    size_t n = c.range(1, std::min<size_t>(idlen - 1, 8));
+    for (auto &s : msgs) if (s.held && !s.orphaned) { s.orphaned = true; c.label("conn:deferred-request-other-width"); }
+    c.logf("con->out._idlen: %zu -> %zu", idlen, n);
+    idlen = n;
+    con->out._idlen = (uint8_t)n;
+    c.label("conn:id-width-changed");
+  }
   // the connection leaves its peer: requests parked in deferred handles lose their transport
   void leave_peer(bool reopen) {
     for (auto &s : msgs) if (s.held && !s.orphaned) { s.orphaned = true; c.label("conn:deferred-request-orphaned"); }
@@ -645,11 +682,17 @@ struct StreamWorld {
   }
   void serve_connection() {  // output_remote.c: remoteNext() = mpt_stream_poll(stream, ready events, 0), remoteDispatch() = mpt_connection_dispatch()
     if (closed) return;
-    for (int guard = 0; guard < 64 && readable(sfd); guard++) {
-      int r = mpt_stream_poll(csrm, POLLIN | POLLOUT, 0);
-      c.logf("  mpt_stream_poll(POLLIN|POLLOUT, 0) -> %d", r);
-      if (r < 0) break;
-      for (int g2 = 0; g2 < 64; g2++) {
+    bool pending = dispatch_pending;  // messages already read into the input queue while the output was busy
+    dispatch_pending = false;
+    for (int guard = 0; guard < 64 && (pending || readable(sfd)); guard++) {
+      if (!pending) {
+        int r = mpt_stream_poll(csrm, POLLIN | POLLOUT, 0);
+        c.logf("  mpt_stream_poll(POLLIN|POLLOUT, 0) -> %d", r);
+        if (r < 0) break;
+      }
+      pending = false;
+      if (local_open) guard = 64;
+      for (int g2 = 0; g2 < (local_open ? 2 : 64); g2++) {
         int d = discard_round ? mpt_connection_dispatch(con, 0, 0) : mpt_connection_dispatch(con, handler, this);
         c.logf("  mpt_connection_dispatch(%s) -> 0x%x", discard_round ? "con, NULL, NULL" : "con, handler", d);
         if (d < 0 || !(d & 0x10000 /* Retry */)) break;
@@ -737,12 +780,17 @@ struct StreamWorld {
       std::vector<uint8_t> id(body.begin(), body.begin() + idlen);
       bool marked = id[0] & 0x80;
       id[0] &= 0x7f;
+      if (con && !marked && std::all_of(id.begin(), id.end(), [](uint8_t b) { return !b; })) {  // an outgoing message of the local side (id 0)
+        std::string text(body.begin() + idlen, body.end());
+        auto it = std::find(local_sent.begin(), local_sent.end(), std::make_pair(pi, text));
+        if (it != local_sent.end()) { local_sent.erase(it); c.label("conn:outgoing-message-arrived"); continue; }
+      }
       SMsg *rq = 0, *other = 0;
       for (auto &s : msgs) if (s.kind == KRequest && s.id == id) { if (s.peer != pi) other = &s; else if (s.delivered || s.discard) rq = &s; }
-      if (!rq && other) { note(a, 7, "misdirected-reply", "peer " + std::to_string(pi) + " received the reply " + shown + " to request " + hex(other->id.data(), idlen) + ", which peer " + std::to_string(other->peer) + " had sent" + (other->orphaned ? " (its answer was deferred, then the connection was pointed at another peer)" : "")); continue; }
+      if (!rq && other) { note(a, 7, "misdirected-reply", "peer " + std::to_string(pi) + " received the reply " + shown + " to request " + hex(other->id.data(), other->id.size()) + ", which peer " + std::to_string(other->peer) + " had sent" + (other->orphaned ? " (its answer was deferred, then the connection was pointed at another peer)" : "")); continue; }
       if (!rq) { note(a, 5, "unsolicited-reply", "the server sent a frame with id " + hex(body.data(), idlen) + " (" + shown + "): no delivered request has that id" + (std::all_of(id.begin(), id.end(), [](uint8_t b) { return !b; }) ? " — zero id: a reply to a message that wants no answer" : "")); continue; }
-      if (++rq->replies > 1) note(a, 4, "reply-twice", "request " + hex(rq->id.data(), idlen) + " got " + std::to_string(rq->replies) + " replies");
-      if (!marked) note(a, 2, "reply-not-marked", "the reply to request " + hex(rq->id.data(), idlen) + " carries id bytes " + hex(body.data(), idlen) + ": the reply bit (top bit of the first byte) is not set, the peer reads it as a new request");
+      if (++rq->replies > 1) note(a, 4, "reply-twice", "request " + hex(rq->id.data(), rq->id.size()) + " got " + std::to_string(rq->replies) + " replies");
+      if (!marked) note(a, 2, "reply-not-marked", "the reply to request " + hex(rq->id.data(), rq->id.size()) + " carries id bytes " + hex(body.data(), idlen) + ": the reply bit (top bit of the first byte) is not set, the peer reads it as a new request");
       rq->reply_body.assign(body.begin() + idlen, body.end());
     }
     rx.erase(rx.begin(), rx.begin() + start);
@@ -757,7 +805,7 @@ struct StreamWorld {
       }
       if (s.discard) {  // dispatched without handler: nothing is delivered, a request still gets its (empty) default reply
         if (s.delivered) note(a, 6, "stream-delivery", "message " + std::to_string(i) + " reached a handler although it was dispatched in the discard form");
-        else if (s.kind == KRequest && !s.replies) note(a, 3, "reply-missing", "request " + hex(s.id.data(), idlen) + " dispatched with mpt_connection_dispatch(con, NULL, NULL)" + (i == first_of_peer(s.peer) ? " as the first message since the connection was opened" : "") + " got no default reply");
+        else if (s.kind == KRequest && !s.replies) note(a, 3, "reply-missing", "request " + hex(s.id.data(), s.id.size()) + " dispatched with mpt_connection_dispatch(con, NULL, NULL)" + (i == first_of_peer(s.peer) ? " as the first message since the connection was opened" : "") + " got no default reply");
         else if (s.kind == KRequest && s.replies == 1) c.label(s.reply_body.empty() ? "conn:discard-empty-reply" : "conn:discard-other-reply");
         continue;
       }
@@ -775,13 +823,13 @@ struct StreamWorld {
       if (s.delivered != 1) { note(a, 6, "stream-delivery", "message " + std::to_string(i) + " (" + s.payload + ") was delivered to the handler " + std::to_string(s.delivered) + " times"); continue; }
       if (s.garbled) note(a, 6, "stream-delivery", "message " + std::to_string(i) + " reached the handler with a different payload");
       if (s.kind != KRequest) continue;
-      if (s.second_accepted) note(a, 4, "reply-not-refused", "request " + hex(s.id.data(), idlen) + ": the second reply() in the handler returned " + std::to_string(s.r2) + " after the first returned " + std::to_string(s.r1));
-      if (!s.held && !s.orphaned && s.replies == 0) note(a, 3, "reply-missing", "request " + hex(s.id.data(), idlen) + " (handler: " + kActionName[s.action] + ", returned " + std::to_string(s.hret) + ", reply context " + (s.had_ctx ? "handed out" : "NULL") + ") got no reply");
+      if (s.second_accepted) note(a, 4, "reply-not-refused", "request " + hex(s.id.data(), s.id.size()) + ": the second reply() in the handler returned " + std::to_string(s.r2) + " after the first returned " + std::to_string(s.r1));
+      if (!s.held && !s.orphaned && s.replies == 0) note(a, 3, "reply-missing", "request " + hex(s.id.data(), s.id.size()) + " (handler: " + kActionName[s.action] + ", returned " + std::to_string(s.hret) + ", reply context " + (s.had_ctx ? "handed out" : "NULL") + ") got no reply");
       if (s.replies == 1 && s.explicit_ok) {
         std::vector<uint8_t> want;
         if (s.action == ARawReply || s.action == AReplyTwice) want.assign(rawmsg, rawmsg + sizeof rawmsg);
         else { want = {0x01, (uint8_t)(int8_t)s.code, 'd', 'o', 'n', 'e'}; }
-        if (s.reply_body != want) note(a, 1, "reply-content", "explicit answer to " + hex(s.id.data(), idlen) + " arrived as " + hex(s.reply_body.data(), s.reply_body.size(), 40) + ", sent " + hex(want.data(), want.size(), 40));
+        if (s.reply_body != want) note(a, 1, "reply-content", "explicit answer to " + hex(s.id.data(), s.id.size()) + " arrived as " + hex(s.reply_body.data(), s.reply_body.size(), 40) + ", sent " + hex(want.data(), want.size(), 40));
         c.label("stream:explicit-reply");
       } else if (s.replies == 1 && !s.held) {
         bool echo = s.reply_body.size() >= idlen && std::equal(s.payload.begin(), s.payload.end(), s.reply_body.begin() + idlen, s.reply_body.end());
@@ -820,7 +868,21 @@ static void stream_history(Ctx &c, bool connection = false) {
   while (c.more() && w.msgs.size() < 100) {
     w.discard_round = false;
     if (connection) {  // new draws only here: the decoding of the stream-input cases (0xd0..) stays as it was
-      switch (w.handles.empty() ? c.weighted({10, 2, 1, 3}) : c.weighted({5, 6, 2, 3})) {  // leave the peer more often while answers are parked
+      // one byte: 0xe0..0xff select the round-8 operations, below that it decodes as the former weighted draws did (byte % 16)
+      size_t opb = c.range(0, 255), op = 0;
+      if (opb >= 0xf0) op = 4;
+      else if (opb >= 0xe0) op = 5;
+      else { static const unsigned wa[] = {10, 2, 1, 3}, wb[] = {5, 6, 2, 3}; const unsigned *wt = w.handles.empty() ? wa : wb; unsigned r = opb % 16; while (r >= wt[op]) r -= wt[op++]; }
+      if (w.local_open && (op == 1 || op == 2 || op == 5)) w.local_finish();  // re-targeting and a new id width need an idle output
+      switch (op) {
+        case 4: if (!w.closed) w.local_start(); break;
+        case 5: if (!w.closed) {  // everything sent under the old width reaches its peer first
+          w.serve(w.sfd);
+          StreamWorld::Anomaly pre;
+          w.client_collect(pre);
+          if (pre.prio) c.fail(pre.tag.c_str(), "%s", pre.msg.c_str());
+          w.change_idlen();
+        } break;
         case 1: w.leave_peer(true); break;
         case 2: if (!w.closed) w.leave_peer(false); break;
         case 3: w.discard_round = true; c.label("conn:discard-round"); break;
@@ -861,7 +923,16 @@ static void stream_history(Ctx &c, bool connection = false) {
       w.client_send(w.msgs.back());
       c.label(s.kind == KRequest ? "stream:request" : s.kind == KOneWay ? "stream:one-way" : "stream:reply-type");
     }
-    w.serve(sfd);
+    w.serve(connection ? w.sfd : sfd);
+    if (w.local_open) {  // nothing may have been answered wrongly so far; finish the outgoing message, then the requests get their turn
+      StreamWorld::Anomaly early;
+      w.client_collect(early);
+      if (early.prio >= 4) c.fail(early.tag.c_str(), "%s", early.msg.c_str());
+      w.local_finish();
+      w.dispatch_pending = true;
+      w.serve(w.sfd);
+      c.label("conn:round-behind-outgoing-message");
+    }
     StreamWorld::Anomaly a;
     w.client_collect(a);
     w.settle(a, from);
@@ -872,9 +943,10 @@ static void stream_history(Ctx &c, bool connection = false) {
     }
     answer_deferred(c, w);
   }
+  if (w.local_open) w.local_finish();
   // release what is left and look once more: nothing but the replies of the deferred requests may arrive
   while (!w.handles.empty()) { w.handles.back().first->vptr->reply(w.handles.back().first, 0); w.msgs[w.handles.back().second].held = false; w.handles.pop_back(); }
-  w.serve(sfd);
+  w.serve(connection ? w.sfd : sfd);
   StreamWorld::Anomaly a;
   w.client_collect(a);
   w.settle(a, 0);
